@@ -441,6 +441,19 @@ def catalogue(uni, which="quick"):
         Real(uni, name="cubic-float", numtype="float", ctor="ctrlpoints",
              L1=ROT345, shear=(0, 0, F(1, 60), F(1, 50))),
     ]
+    # C13: rational coordinates with denominators up to ~10^4 (derived values stay < 10^9)
+    out.append(Real(uni, name="poly-frac-dense", numtype="frac", ctor="vertices", rot=1,
+                    L2=Affine(F(101, 97), F(7, 53), F(1234, 567), F(-11, 89), F(103, 101), F(-987, 654))))
+    # C12: the same drawing in other units / places / orientations
+    for nm, sc, tx, ty, rot in (("mm", F(1, 1000), 0, 0, None), ("cm", F(1, 100), F(1, 3), 0, None), ("x20", 20, 0, 0, None),
+                                ("km", 10**5, 0, 0, None), ("far3", 1, 1000, -2000, None), ("far6", 1, 10**6, 10**6, None),
+                                ("rot345", 1, 0, 0, ROT345), ("rot90far", 1, 500, 500, Affine(0, -1, 0, 1, 0, 0))):
+        post = Affine(sc, 0, tx, 0, sc, ty)
+        if rot is not None:
+            post = rot.then(post)
+        out.append(Real(uni, name="sim-%s-float" % nm, numtype="float", ctor="ctrlpoints", post=post))
+        out.append(Real(uni, name="sim-%s-frac" % nm, numtype="frac", ctor="vertices", post=post))
+        out.append(Real(uni, name="sim-%s-quad" % nm, numtype="float", ctor="ctrlpoints", L1=ROT345, shear=(0, 0, F(1, 40)), post=post))
     if which != "quick":
         out += [
             Real(uni, name="poly-mixed", numtype="mixed", ctor="vertices", rot=3),
@@ -450,8 +463,14 @@ def catalogue(uni, which="quick"):
     return out
 
 
+_BYNAME = {}
+
+
 def by_name(uni, name):
-    for r in catalogue(uni, "all"):
-        if r.name == name:
-            return r
+    key = (uni.name, name)
+    if key not in _BYNAME:
+        for r in catalogue(uni, "all"):
+            _BYNAME[(uni.name, r.name)] = r
+    if key in _BYNAME:
+        return _BYNAME[key]
     raise KeyError(name)
